@@ -252,14 +252,10 @@ func main() {
 							shapes[2] = shapeRef
 						}
 					}
-					// acknowledged but not stored: the known mechanism only concerns the out-of-order
-					// samples appended first (series whose head chunk is missing after the open)
-					if len(bm) > 0 && len(bx) == 0 && len(diff(bm, o.First)) == 0 {
-						if shapes[2] == shapeRef {
-							shapes[2] = shapeRef + "+" + shapeDrop
-						} else {
-							shapes[2] = shapeDrop
-						}
+					// acknowledged but not stored (finding E; the appends of this harness come in an
+					// order that does not provoke it, see notes/C04.md and -repro)
+					if len(bm) > 0 && len(bx) == 0 && shapes[2] == "reopen" {
+						shapes[2] = shapeDrop
 					}
 					if t.role == "chunk-old" && d.Kind == kTrunc && o.Repair == "none" && len(c1miss) > 0 {
 						shapes[0], shapes[1] = shapeOld, shapeOld
